@@ -23,7 +23,7 @@ pub fn def() -> CheckDef {
         },
         gen,
         run,
-        rule: "one workload (its fault positions spread over 8 cases, k mod 8) = a drawn mutating workload from an empty file (create storages/streams; handle writes that stay mini, stay regular, migrate both ways; set_len; removes; setters; explicit flush on handles and on the file; <= 40 calls, V3/V4, drawn max_buffer_size). A fault-free reference run counts the N underlying seam calls; then the workload is re-run with one fault at EVERY k in 1..N in each kind applicable to call k: fail (F-WE / F-SE / F-FE / F-RE), torn write with a drawn prefix (F-WT), and disk-full from k on, healed after the first failing API call (F-DF). A failing API call is retried (<= 3 times), then the rest of the workload runs. At every 4th position of the quick tier (every position in the thorough tier) a SECOND failure is injected inside the retry of the call that failed first (at a drawn call of the retry and at its last one), so that the retry has to be retryable too. Oracles: (1) an API call during which a write/seek/flush fault fired returns Err; (2) nothing panics or exceeds its step budget; (3) whenever flush() on a handle returns Ok - first try or retry - a fresh handle on the live file AND the underlying bytes reopened (every third workload: the bytes made durable by the underlying file's own last successful flush - write-back-cache model) read back exactly the bytes whose write calls that handle accepted (read-back / reopen errors count as inconclusive). sub_runs = faulted executions. Non-trivial: a fault fired and a later handle flush returned Ok and was verified; distinct = distinct seam-log hashes. A failed read / fill_buf / seek on a handle must not move its position (rule position-moved-by-failed-call): the bytes accepted next would be stored at another offset than the caller's.",
+        rule: "one workload (its fault positions spread over 8 cases, k mod 8) = a drawn mutating workload from an empty file (create storages/streams; handle writes that stay mini, stay regular, migrate both ways; set_len; removes; setters; explicit flush on handles and on the file; <= 40 calls, V3/V4, drawn max_buffer_size). A fault-free reference run counts the N underlying seam calls; then the workload is re-run with one fault at EVERY k in 1..N in each kind applicable to call k: fail (F-WE / F-SE / F-FE / F-RE), torn write with a drawn prefix (F-WT), and disk-full from k on, healed after the first failing API call (F-DF). A failing API call is retried (<= 3 times), then the rest of the workload runs. At every 4th position of the quick tier (every position in the thorough tier) a SECOND failure is injected inside the retry of the call that failed first (at a drawn call of the retry and at its last one), so that the retry has to be retryable too. Oracles: (1) an API call during which a write/seek/flush fault fired returns Err; (2) nothing panics or exceeds its step budget; (3) whenever flush() on a handle returns Ok - first try or retry - a fresh handle on the live file AND the underlying bytes reopened (every third workload: the bytes made durable by the underlying file's own last successful flush - write-back-cache model) read back exactly the bytes whose write calls that handle accepted (read-back / reopen errors count as inconclusive). sub_runs = faulted executions. Non-trivial: a fault fired and a later handle flush returned Ok and was verified; distinct = distinct seam-log hashes. A failed read / fill_buf / seek on a handle must not move its position (rule position-moved-by-failed-call): the bytes accepted next would be stored at another offset than the caller's. At every second position the run is repeated with ErrorKind::Interrupted / a short transfer instead of a failure, at the others with disk-full signalled by writes that persistently return Ok(0). Every fourth workload GIVES UP on a create that failed (no retry, the path and everything below it never touched again) and carries on with its other objects: the bytes must still open and hold what the other handles flush.",
         assumptions: &["Drop is never relied upon to write back (excluded by the statement): the workload flushes explicitly", "after a failed set_len or failed structural call the affected stream's expected content is unknown and no longer judged (inconclusive)"],
         cpu_limit_s: 1200,
         fault_kinds: "F-WE, F-WT, F-SE, F-FE, F-RE at every k (enumerated), F-DF from every k with heal, a second failure inside the retry, F-EI / F-SR / F-SW (Interrupted, short transfer) at every second k, F-DF as persistent Ok(0) writes at the other k",
